@@ -3,7 +3,7 @@ package harness
 func bfsRec(tier string) *BFSDef {
 	al := []string{
 		"mkdir w/r/sub/n", "mkdir w/r/sub/n/m", "mkdir w/r/dir1/k", "mkdir w/r/sub",
-		"mv w/r/sub w/r/moved", "mv w/r/moved w/r/sub", "mv w/r/dir1 w/r/dirA", "mv w/r/sub/d w/r/sub2/dd", "mv w/r/sub2 w/r/sub/in",
+		"mv w/r/sub w/r/moved", "mv w/r/moved w/r/sub", "mv w/r/dir1 w/r/dirA", "mv w/r/sub/d w/r/sub2/dd", "mv w/r/sub2 w/r/sub/in", "mv w/r/dir1 w/r/empty", "touch w/r/empty/t",
 		"touch w/r/t", "touch w/r/dir1/t", "touch w/r/dir10/t", "touch w/r/sub/t", "touch w/r/sub2/t", "touch w/r/sub/d/t", "touch w/r/sub2/d/t",
 		"touch w/r/moved/t", "touch w/r/moved/d/t", "touch w/r/dirA/t", "touch w/r/dir10/c10/t", "touch w/r/sub/n/t", "touch w/r/sub/n/m/t", "touch w/r2/x/t",
 		"rm w/r/sub2/f", "rm w/r/dir10/f", "rm w/r/moved/f", "write w/r/sub2/d/f", "write w/r/dir10/f", "write w/r2/x/f",
@@ -53,6 +53,15 @@ func recJobs(tier string) []Job {
 	for _, h := range hs {
 		jobs = append(jobs, Job{Family: "seq-batch", Params: map[string]any{"family": "rec", "base": map[string]any{"init": []string{"RA w/r", "RA w/r2"}}, "histories": [][]string{h}}})
 	}
+	// "covered from the moment its own Create has been delivered": the new directory's Create shares a read
+	// buffer with later events and is the one the reader is parked on (no consumer yet); something is created
+	// inside the new directory right then
+	var lq [][]string
+	for _, nd := range []string{"w/r/sub/n", "w/r/nn", "w/r/dir10/c10/n"} {
+		lq = append(lq, []string{"mkdir " + nd + " ;; touch w/r/t", "touch " + nd + "/inner ;; mkdir " + nd + "/deeper", "touch " + nd + "/deeper/x"})
+		lq = append(lq, []string{"mkdir " + nd, "touch " + nd + "/inner", "rm " + nd + "/inner"})
+	}
+	jobs = append(jobs, Job{Family: "seq-batch", Params: map[string]any{"family": "rec", "base": map[string]any{"init": []string{"RA w/r", "RA w/r2"}, "late": "q"}, "histories": lq}})
 	return jobs
 }
 
